@@ -14,7 +14,7 @@ func errorF(t *rt.Thread, c *rt.GoCont) (rt.Cont, error) {
 	} else {
 		err = rt.NewError(c.Arg(0))
 	}
-	if c.NArgs() >= 2 {
+	if c.NArgs() >= 2 && !c.Arg(1).IsNil() {
 		var argErr error
 		level, argErr = c.IntArg(1)
 		if argErr != nil {
